@@ -43,6 +43,14 @@ func (sp *StakePool) save(sscKey, providerID string, balances cstate.StateContex
 	return
 }
 
+// Save implements stakepool.AbstractStakePool. Without it the Save promoted
+// from the embedded stakepool.StakePool is used by StakePoolLock/StakePoolUnlock,
+// which stores the bare embedded pool (another encoding than the one
+// getStakePool decodes) under a key built from the provider type of the request.
+func (sp *StakePool) Save(_ spenum.Provider, providerID string, balances cstate.StateContextI) error {
+	return sp.save(ADDRESS, providerID, balances)
+}
+
 // empty a delegate pool if possible, call update before the empty
 //
 //nolint:unused
